@@ -41,6 +41,8 @@ type trimCase struct {
 	Files map[string]string `json:"files"`
 	Args  trimArgs          `json:"args"`
 	Yaml  *string           `json:"yaml"`
+	// Verbose: also report the summaries of the untrimmed, re-parsed and twice-trimmed trees and the dumped text
+	Verbose bool `json:"verbose"`
 }
 
 type defSum struct {
@@ -71,15 +73,65 @@ type treeSum struct {
 }
 
 type trimObs struct {
-	ID       int               `json:"id"`
-	PreErr   string            `json:"pre_err"` // the untrimmed program was not accepted (machinery)
-	Pre      *treeSum          `json:"pre"`
-	T1       *treeSum          `json:"t1"`
-	DumpErr  string            `json:"dump_err"`
-	Dumped   map[string]string `json:"dumped,omitempty"`
-	RP       *treeSum          `json:"rp"`
-	T2       *treeSum          `json:"t2"`
-	SameDump bool              `json:"same_dump"`
+	ID      int      `json:"id"`
+	PreErr  string   `json:"pre_err"` // the untrimmed program was not accepted (machinery)
+	T1      *treeSum `json:"t1"`      // the trimmed tree (signatures only in verbose mode)
+	Changed []string `json:"changed"` // definitions / functions left whose signature differs from the untrimmed one
+	DumpErr string   `json:"dump_err"`
+	RPErr   string   `json:"rp_err"`   // parse + check + resolve of the dumped text
+	RPStale []string `json:"rp_stale"` // reference problems of the re-parsed tree
+	RPSame  bool     `json:"rp_same"`  // summary of the re-parsed tree == summary of the trimmed tree
+	T2Err   string   `json:"t2_err"`   // second trim (of the re-parsed tree): error or panic
+	T2Same  bool     `json:"t2_same"`  // summary after the second trim == summary before it, no stale references
+	SameDump bool    `json:"same_dump"`
+	// verbose mode
+	Pre    *treeSum          `json:"pre,omitempty"`
+	RP     *treeSum          `json:"rp,omitempty"`
+	T2     *treeSum          `json:"t2,omitempty"`
+	Dumped map[string]string `json:"dumped,omitempty"`
+}
+
+// sigs of a summary: "path|kind name" -> signature, "path|S.fn" -> function signature
+func sigMap(t *treeSum) map[string]string {
+	m := map[string]string{}
+	for _, fs := range t.Files {
+		for _, d := range fs.Defs {
+			m[fs.Path+"|"+d.K+" "+d.Name] = d.Sig
+		}
+		for _, s := range fs.Svcs {
+			m[fs.Path+"|service "+s.Name] = "extends " + s.Ext + " {" + strings.Join(s.Fns, ",") + "}"
+			for i, f := range s.Fns {
+				m[fs.Path+"|"+s.Name+"."+f] = s.Sigs[i]
+			}
+		}
+		m[fs.Path+"|includes"] = strings.Join(fs.Includes, ",")
+	}
+	return m
+}
+
+func sameSum(a, b *treeSum) bool {
+	x, y := sigMap(a), sigMap(b)
+	if len(x) != len(y) {
+		return false
+	}
+	for k, v := range x {
+		if w, ok := y[k]; !ok || w != v {
+			return false
+		}
+	}
+	return true
+}
+
+// stripSigs drops the signatures (compact mode)
+func stripSigs(t *treeSum) {
+	for i := range t.Files {
+		for j := range t.Files[i].Defs {
+			t.Files[i].Defs[j].Sig = ""
+		}
+		for j := range t.Files[i].Svcs {
+			t.Files[i].Svcs[j].Sigs = nil
+		}
+	}
 }
 
 func typeStr(t *parser.Type) string {
@@ -416,14 +468,17 @@ func dumpTree(root *parser.Thrift, rel func(string) string) (map[string]string, 
 }
 
 func runTrimCase(c *trimCase) *trimObs {
-	obs := &trimObs{ID: c.ID}
+	obs := &trimObs{ID: c.ID, Changed: []string{}, RPStale: []string{}}
 	rel := func(s string) string { return s }
 	ast, err := parseCheck(c.Main, c.Files)
 	if err != nil {
 		obs.PreErr = err.Error()
 		return obs
 	}
-	obs.Pre = summarize(ast, rel)
+	pre := summarize(ast, rel)
+	if c.Verbose {
+		obs.Pre = pre
+	}
 	t1 := &treeSum{}
 	t1.Err, t1.Panic = doTrim(ast, c.Args)
 	if t1.Panic == "" {
@@ -436,7 +491,31 @@ func runTrimCase(c *trimCase) *trimObs {
 		}
 	}
 	obs.T1 = t1
-	if t1.Panic != "" || t1.Err != "" {
+	if t1.Panic != "" {
+		return obs
+	}
+	// meaning: what is left has the signature it had
+	presig := sigMap(pre)
+	for _, fs := range t1.Files {
+		for _, d := range fs.Defs {
+			if presig[fs.Path+"|"+d.K+" "+d.Name] != d.Sig {
+				obs.Changed = append(obs.Changed, fs.Path+":"+d.Name)
+			}
+		}
+		for _, s := range fs.Svcs {
+			for i, f := range s.Fns {
+				if presig[fs.Path+"|"+s.Name+"."+f] != s.Sigs[i] {
+					obs.Changed = append(obs.Changed, fs.Path+":"+s.Name+"."+f)
+				}
+			}
+		}
+	}
+	defer func() {
+		if !c.Verbose {
+			stripSigs(t1)
+		}
+	}()
+	if t1.Err != "" {
 		return obs
 	}
 	var dumped map[string]string
@@ -448,32 +527,45 @@ func runTrimCase(c *trimCase) *trimObs {
 		obs.DumpErr = err.Error()
 		return obs
 	}
-	obs.Dumped = dumped
+	if c.Verbose {
+		obs.Dumped = dumped
+	}
 	ast2, err := parseCheck(c.Main, dumped)
 	if err != nil {
-		obs.RP = &treeSum{Err: err.Error()}
+		obs.RPErr = err.Error()
+		if !c.Verbose {
+			obs.Dumped = dumped // the text that was rejected is part of the observation
+		}
 		return obs
 	}
-	obs.RP = summarize(ast2, rel)
+	rp := summarize(ast2, rel)
+	if c.Verbose {
+		obs.RP = rp
+	}
+	obs.RPStale = rp.Stale
+	obs.RPSame = sameSum(rp, t1)
 	t2 := &treeSum{}
 	t2.Err, t2.Panic = doTrim(ast2, c.Args)
-	if t2.Panic == "" {
+	if t2.Panic != "" {
+		obs.T2Err = "panic: " + t2.Panic
+	} else if t2.Err != "" {
+		obs.T2Err = t2.Err
+	} else {
 		s := summarize(ast2, rel)
-		s.Err = t2.Err
-		t2 = s
-		if t2.Err == "" {
-			d2, err := dumpTree(ast2, rel)
-			if err == nil && len(d2) == len(dumped) {
-				obs.SameDump = true
-				for k, v := range dumped {
-					if d2[k] != v {
-						obs.SameDump = false
-					}
+		obs.T2Same = sameSum(s, rp) && len(s.Stale) == 0
+		if c.Verbose {
+			obs.T2 = s
+		}
+		d2, err := dumpTree(ast2, rel)
+		if err == nil && len(d2) == len(dumped) {
+			obs.SameDump = true
+			for k, v := range dumped {
+				if d2[k] != v {
+					obs.SameDump = false
 				}
 			}
 		}
 	}
-	obs.T2 = t2
 	return obs
 }
 
